@@ -1,6 +1,7 @@
 import MuduoVerif.Proofs.PollerPerm
 import MuduoVerif.Proofs.PollerSkelTie
 import MuduoVerif.Proofs.PollerBound
+import MuduoVerif.Proofs.SysSkelTie
 /-!
 # C09 — the loop calls exactly the ready, subscribed channels; same under epoll and poll
 
@@ -455,5 +456,46 @@ example (c : Nat) (hc : (c, 1) ∈ burstReady) :
   have hsub : ∀ p ∈ burstReady, subscribed .read ((reach .epoll burstHistory).chans p.1).events := by decide +kernel
   exact (all_ready_called_epoll_bound burstHistory (by decide +kernel) (by decide +kernel) burstReady (fun _ => burstReady)
     (fun _ => .refl _) (by decide +kernel) (by decide +kernel) 2).2.2 (by simp [burstReady, kInitEventListSize]) c 1 .read hc (by decide) (hsub _ hc)
+
+/-! ## T1, which back-end, and what it owns -/
+
+/-- T1, the back-end the loop gets.  `Model/Poller.lean` takes the back-end as a parameter (`Poller.init be`) and the
+harness chooses it through the environment; in /repo's current sources (`Generated/SysSkel.lean`, re-extracted on every
+run; `Proofs/SysSkelTie.lean`) `Poller::newDefaultPoller` reads `MUDUO_USE_POLL` once and returns a `PollPoller` when it
+is SET, an `EPollPoller` otherwise; `EPollPoller`'s constructor makes one `epoll_create1(EPOLL_CLOEXEC)` (a failure ends
+the process) and sizes `events_` with `kInitEventListSize` (`Poller.init`: `evsize := kInitEventListSize`), its destructor
+closes that descriptor once; `PollPoller` and the base class own nothing (`channels_` starts empty, `= default`
+destructors); `Poller::hasChannel` is the value `cmap (fd) = some channel` the model's assertions test; `Channel::tie`
+stores the weak reference and sets the flag. -/
+theorem default_poller_choice :
+    Gen.SysSkel.newDefaultPoller =
+      [.act (.sys "getenv" "\"MUDUO_USE_POLL\""),
+       .ite "<result>" [.act (.ret "new PollPoller(loop)")] [.act (.ret "new EPollPoller(loop)")]] ∧
+    Gen.SysSkel.epollCtor =
+      [.act (.call "Poller::Poller" "loop"), .act (.sys "epoll_create1" "EPOLL_CLOEXEC"), .act (.store "epollfd_" "<result>"),
+       .act (.store "events_" "kInitEventListSize"), .ite "epollfd_ < 0" [.act (.log .sysfatal)] []] ∧
+    Gen.SysSkel.epollDtor = [.act (.sys "close" "epollfd_")] ∧
+    Gen.SysSkel.pollCtor = [.act (.call "Poller::Poller" "loop")] ∧
+    Gen.SysSkel.pollDtor = [] ∧
+    Gen.SysSkel.pollerCtor = [.act (.store "ownerLoop_" "loop")] ∧
+    Gen.SysSkel.pollerDtor = [] ∧
+    Gen.SysSkel.pollerHasChannel = SysSkel.Decl.pollerHasChannel ∧
+    Gen.SysSkel.channelTie = [.act (.store "tie_" "obj"), .act (.store "tied_" "true")] :=
+  ⟨SysSkel.skeleton_newDefaultPoller, SysSkel.skeleton_epollCtor, SysSkel.skeleton_epollDtor, SysSkel.skeleton_pollCtor,
+   SysSkel.skeleton_pollDtor, SysSkel.skeleton_pollerCtor, SysSkel.skeleton_pollerDtor, SysSkel.skeleton_pollerHasChannel,
+   SysSkel.skeleton_channelTie⟩
+
+/-- T1, the two descriptors every loop polls besides the channels of its users: the wake-up `eventfd` (counter 0) and
+the `timerfd` (monotonic clock) are created NON-BLOCKING and close-on-exec by one system call each, and a failure ends
+the process - so a read of either after a spurious report cannot block the loop (`Generated/SysSkel.lean`,
+`Proofs/SysSkelTie.lean`) -/
+theorem loop_descriptors_nonblocking :
+    Gen.SysSkel.createEventfd =
+      [.act (.sys "eventfd" "0, EFD_NONBLOCK | EFD_CLOEXEC"), .act (.assign "evtfd" "<result>"),
+       .ite "evtfd < 0" [.act (.log .syserr), .act (.sys "abort" "")] [], .act (.ret "evtfd")] ∧
+    Gen.SysSkel.createTimerfd =
+      [.act (.sys "timerfd_create" "1, TFD_NONBLOCK | TFD_CLOEXEC"), .act (.assign "timerfd" "<result>"),
+       .ite "timerfd < 0" [.act (.log .sysfatal)] [], .act (.ret "timerfd")] :=
+  ⟨SysSkel.skeleton_createEventfd, SysSkel.skeleton_createTimerfd⟩
 
 end MuduoVerif.C09
